@@ -81,6 +81,33 @@ pub fn judge(_part: &str, case: &Case, tally: &mut Tally) -> Verdict {
         if back != want_back {
             return Some(Verdict::fail("stops-backward", format!("tab stops read with CBT at width {}: observed {:?}, expected {:?}", wk.cols, back, want_back)));
         }
+        // counted moves on one replica (they only move the cursor): CHT k from column 0 and
+        // CBT k from the last column must land on the k-th stop or on the last / first column
+        if wk.cols >= 2 {
+            let mut v = wk.replica();
+            let _ = v.feed_str("\x18");
+            let n = want.len();
+            let mut ks = vec![2usize, 3, 4, n, n + 1];
+            ks.dedup();
+            for k in ks {
+                if k == 0 {
+                    continue;
+                }
+                let _ = v.feed_str(&format!("\r\x1b[{}I", k));
+                let exp = want.get(k - 1).copied().unwrap_or(wk.cols - 1);
+                let got = v.cursor().col;
+                if got != exp {
+                    return Some(Verdict::fail("cht-count", format!("CHT {} from column 0 at width {} landed on column {}, expected {} (stops {:?})", k, wk.cols, got, exp, want)));
+                }
+                let _ = v.feed_str(&format!("\x1b[{}G\x1b[{}Z", wk.cols, k));
+                let left: Vec<usize> = want.iter().copied().filter(|t| *t < wk.cols - 1).collect();
+                let exp = if k <= left.len() { left[left.len() - k] } else { 0 };
+                let got = v.cursor().col;
+                if got != exp {
+                    return Some(Verdict::fail("cbt-count", format!("CBT {} from the last column at width {} landed on column {}, expected {} (stops {:?})", k, wk.cols, got, exp, want)));
+                }
+            }
+        }
         if !customised {
             let fresh = probe_stops(&mut new_vt(wk.cols, wk.rows, None));
             if got != fresh {
@@ -99,6 +126,10 @@ pub fn judge(_part: &str, case: &Case, tally: &mut Tally) -> Verdict {
             if matches!(rec.f, RefFn::Ris) {
                 dirty = true;
                 customised = false;
+            }
+            // screen switches and soft reset must leave the stops alone: re-read after them
+            if matches!(rec.f, RefFn::Decset(_) | RefFn::Decrst(_) | RefFn::Decstr) {
+                dirty = true;
             }
             if cls.contains(&Class::Tabs) {
                 tally.steps += 1;
@@ -211,7 +242,7 @@ pub fn gen_random(src: &mut Src, _i: usize) -> Case {
                         8 => s.push('\t'),
                         9 => s.push_str(&format!("\x1b[{}I", gen::num(src, &g, (cur_cols / 8).max(1)))),
                         10 => s.push_str(&format!("\x1b[{}Z", gen::num(src, &g, (cur_cols / 8).max(1)))),
-                        _ => s.push_str(*src.pick(&["\r", "\x08", "ab", "\x1b[?7l", "\x1b[?7h", "\x1b[!p"])),
+                        _ => s.push_str(*src.pick(&["\r", "\x08", "ab", "\x1b[?7l", "\x1b[?7h", "\x1b[!p", "\x1b[?1049h", "\x1b[?1049l", "\x1b[?47h", "\x1b[?47l", "\x1b[?1047h", "\x1b[?1047l", "\x1b[?1049h", "\x1b[?1049l"])),
                     }
                 }
                 case.calls.push(Call::FeedStr(s));
@@ -261,11 +292,36 @@ pub fn run(env: &Env) -> PropRun {
             Some(Case::new(wide[k / nw], 1, None).resize(wide[k % nw], 1))
         }
     }, &j));
+    // tab stops are one set for both screens: resizes during an alternate-screen excursion
+    let spell = [("\x1b[?1049h", "\x1b[?1049l"), ("\x1b[?47h", "\x1b[?47l"), ("\x1b[?1047h", "\x1b[?1049l")];
+    let custom = ["", "\x1b[20G\x1bH", "\x1b[9G\x1b[g", "\x1b[3g\x1b[5G\x1bH"];
+    parts.push(run_part(
+        env,
+        "enum-alt-excursion",
+        ts * ts * spell.len() * custom.len() * 2,
+        true,
+        "w1 -> w2 over the 16 boundary widths, resized while the alternate screen shows (3 enter/leave spellings), x 4 customisations made before entering or while on the alternate screen; stops read after the resize and after leaving",
+        &|i| {
+            let (w1, w2) = (TRIPLE_SET[i % ts], TRIPLE_SET[(i / ts) % ts]);
+            let k = i / (ts * ts);
+            let (enter, leave) = spell[k % spell.len()];
+            let cu = custom[(k / spell.len()) % custom.len()];
+            let on_alt = k / (spell.len() * custom.len()) == 1;
+            let mut c = Case::new(w1, 2, None);
+            if on_alt {
+                c = c.feed(enter).feed(cu);
+            } else {
+                c = c.feed(cu).feed(enter);
+            }
+            Some(c.resize(w2, 2).feed(leave).feed("\r"))
+        },
+        &j,
+    ));
     parts.push(random_part(env, "random-sequences", env.tier.scale(100_000, 30), &gen_random, &j));
     PropRun {
         parts,
         meta: EvidenceMeta {
-            rule: "After every call that touched tab stops or resized, the stops are read back on a replica through CR+HT.. (forward), CBT.. (backward) and a wrap-pending CBT (last column), and compared with the tracker's set (defaults every 8 columns; set/clear at the cursor column except column 0 and the wrap-pending position; narrowing drops stops >= width, widening adds every multiple of 8 in [old,new)); a never-customised terminal is also compared with a fresh terminal of the same width; every HT/CHT/CBT step must land on the n-th next/previous tracker stop or the last/first column. Non-trivial = a resize from or across a multiple of 8, customised stops surviving a resize, or a count larger than the number of stops.".into(),
+            rule: "After every call that touched tab stops or resized, the stops are read back on a replica through CR+HT.. (forward), CBT.. (backward) and a wrap-pending CBT (last column), and compared with the tracker's set (defaults every 8 columns; set/clear at the cursor column except column 0 and the wrap-pending position; narrowing drops stops >= width, widening adds every multiple of 8 in [old,new)); a never-customised terminal is also compared with a fresh terminal of the same width; every HT/CHT/CBT step must land on the n-th next/previous tracker stop or the last/first column, and CHT k / CBT k for k in {2,3,4,#stops,#stops+1} are read on a replica at every check. Histories include alternate-screen excursions (one stop set for both screens). Non-trivial = a resize from or across a multiple of 8, customised stops surviving a resize, or a count larger than the number of stops.".into(),
             assumptions: vec!["tab stops are observed only through cursor movement".into()],
             not_compared: vec![],
         },
